@@ -61,6 +61,14 @@ var c16Decoders = []string{
 	"pkg/api/schema.(Metadata).Unmarshal",
 	"pkg/pgsql/server.(*messageReader).ReadRawMessage",
 	"pkg/pgsql/server.parseProtocolVersion",
+	"pkg/pgsql/server/fmessages.ParseBindMsg",
+	"pkg/pgsql/server/fmessages.ParseCopyDataMsg",
+	"pkg/pgsql/server/fmessages.ParseCopyFailMsg",
+	"pkg/pgsql/server/fmessages.ParseDescribeMsg",
+	"pkg/pgsql/server/fmessages.ParseExecuteMsg",
+	"pkg/pgsql/server/fmessages.ParseParseMsg",
+	"pkg/pgsql/server/fmessages.ParsePasswordMsg",
+	"pkg/pgsql/server/fmessages.ParseQueryMsg",
 	"pkg/database.(*db).resolveValue",
 	"pkg/database.(*db).serializeTx",
 	// stream chunks
@@ -73,6 +81,11 @@ var c16ProofVerifiers = map[string]bool{
 	"embedded/store.VerifyDualProof": true, "embedded/store.VerifyDualProofV2": true, "embedded/store.VerifyLinearProof": true,
 	"embedded/store.VerifyLinearAdvanceProof": true, "embedded/ahtree.EvalInclusion": true, "embedded/ahtree.EvalLastInclusion": true,
 	"embedded/htree.VerifyInclusion": true,
+	// wire messages of the PostgreSQL front end: format-code and parameter slices are indexed by counts found in the message
+	// (ParseBindMsg is not listed: its only non-byte index, parameterFormatCodes[i], is safe because of a correlation between
+	// two boolean flags and the length of that slice, which needs path-sensitive reasoning the prover does not have)
+	"pkg/pgsql/server/fmessages.ParseParseMsg": true, "pkg/pgsql/server/fmessages.ParseExecuteMsg": true,
+	"pkg/pgsql/server/fmessages.ParseDescribeMsg": true,
 }
 
 // callee contracts: on success, 0 <= result[ret] <= len(arg)
